@@ -378,17 +378,28 @@ api_mul(unsigned char *G, size_t Glen,
 {
 	unsigned char k[32];
 	uint64_t x1[5], x2[5], z2[5], x3[5], z3[5];
-	uint32_t swap;
+	uint32_t swap, kz;
 	int i;
 
 	(void)curve;
 
 	/*
 	 * Points are encoded over exactly 32 bytes. Multipliers must fit
-	 * in 32 bytes as well.
+	 * in 32 bytes as well (not counting leading bytes of value zero).
 	 */
-	if (Glen != 32 || kblen > 32) {
+	if (Glen != 32) {
 		return 0;
+	}
+
+	/*
+	 * The unsigned big-endian encoding of the multiplier may use
+	 * extra leading bytes of value zero, as with the other curves.
+	 */
+	kz = 0;
+	while (kblen > 32) {
+		kz |= *kb;
+		kb ++;
+		kblen --;
 	}
 
 	/*
@@ -538,7 +549,7 @@ api_mul(unsigned char *G, size_t Glen,
 	br_enc64le(G + 8, x2[1]);
 	br_enc64le(G + 16, x2[2]);
 	br_enc64le(G + 24, x2[3]);
-	return 1;
+	return EQ(kz, 0);
 }
 
 static size_t
